@@ -99,6 +99,8 @@ func c17Err(k int, s string) error {
 	panic("c17Err")
 }
 
+var c17WForms = []string{"%+w", "%[1]w", "%8w", "%-6w"}
+
 var c17Dirs = []string{"%v", "%+v", "%s", "%q", "%x", "%d", "%#v", "%8v", "%-6s|"}
 
 // H_c17: the error hook.  p = [error kind, position, directive, n, hook(0/1), panic-in-hook(0/1)]
@@ -148,7 +150,7 @@ func H_c17(p []int) {
 	}
 	var arg interface{}
 	switch pos {
-	case 0, 1:
+	case 0, 1, 9, 10, 11, 12:
 		arg = e
 	case 2:
 		arg = errHolder{e, 1}
@@ -169,6 +171,10 @@ func H_c17(p []int) {
 	r := catchRedact(func() redact.RedactableString {
 		if pos == 1 {
 			t, _ := redact.HelperForErrorf("a %w b", arg)
+			return t
+		}
+		if pos >= 9 {
+			t, _ := redact.HelperForErrorf("a "+c17WForms[pos-9]+" b", arg)
 			return t
 		}
 		return redact.Sprintf("a "+d+" b", arg)
@@ -194,7 +200,7 @@ func H_c17(p []int) {
 			if d[len(d)-1] == '|' {
 				wantVerb = rune(d[len(d)-2])
 			}
-			if pos == 1 {
+			if pos == 1 || pos >= 9 {
 				wantVerb = 'v'
 			}
 			vAssert(hookVerb == wantVerb, "C17/hook-gets-the-verb")
